@@ -172,6 +172,19 @@ def _impl(tier, seed, search):
         ctol = TOL if conv_ok else 1e-6
         ok, r = L.noraise('UQ(R)*p', lambda: UnitQuaternion(SO3(R, check=False)) * p, dict(R=R, p=p, theta=th), 'UnitQuaternion(SO3) * point')
         if ok: L.close('UQ(R)*p', np.asarray(r, float).flatten(), ref, ctol, float(np.max(np.abs(p))), dict(R=R, p=p), what='UnitQuaternion converted from a rotation matrix does not rotate like the matrix')
+        # half-turn screws about the coordinate axes (the dual part of their dual quaternion has a zero vector part), alone and as the left
+        # factor of a product; and the way back to SE3 acting on points
+        if i < 12:
+            axk_ = i % 3; dk_ = float((2.0, -1.5, 0.7, 3.0)[i % 4]); Rk_ = np.diag([1.0 if j_ == axk_ else -1.0 for j_ in range(3)]) if i < 6 else getattr(b, 'rot' + 'xyz'[axk_])(math.pi)
+            Tk_ = np.eye(4); Tk_[:3, :3] = Rk_; Tk_[axk_, 3] = dk_; Yk_ = SE3(inputs.se3(g, 1), check=False); pk_ = np.array([0.4, -1.1, 2.3])
+            ok, r = L.noraise('UDQ(half-turn screw)*p', lambda: (np.asarray(UnitDualQuaternion(SE3(Tk_, check=False)) * pk_, float).flatten(), np.asarray((UnitDualQuaternion(SE3(Tk_, check=False)) * UnitDualQuaternion(Yk_)) * pk_, float).flatten(),
+                                                               np.asarray((UnitDualQuaternion(Yk_) * UnitDualQuaternion(SE3(Tk_, check=False))) * pk_, float).flatten()), dict(T=Tk_, p=pk_), 'unit dual quaternion of a half-turn screw about a coordinate axis')
+            if ok:
+                L.close('UDQ(half-turn screw)*p', r[0], Rk_ @ pk_ + Tk_[:3, 3], 1e-7, 5.0, dict(T=Tk_, p=pk_), what='the unit dual quaternion of a half-turn screw about a coordinate axis does not move a point like the screw', sig='UDQ:half-turn-screw')
+                L.close('(UDQ(screw)*UDQ(Y))*p', r[1], (Tk_ @ Yk_.A)[:3, :3] @ pk_ + (Tk_ @ Yk_.A)[:3, 3], 1e-7, 10.0, dict(T=Tk_, Y=Yk_.A, p=pk_), sig='UDQ:half-turn-screw'); L.close('(UDQ(Y)*UDQ(screw))*p', r[2], (Yk_.A @ Tk_)[:3, :3] @ pk_ + (Yk_.A @ Tk_)[:3, 3], 1e-7, 10.0, dict(T=Tk_, Y=Yk_.A, p=pk_), sig='UDQ:half-turn-screw')
+        ok, r = L.noraise('UDQ(T).SE3()*p', lambda: (np.asarray(UnitDualQuaternion(SE3(Tm, check=False)).SE3() * p, float).flatten(), np.asarray(b.homtrans(UnitDualQuaternion(SE3(Tm, check=False)).SE3().A, p), float).flatten()), dict(T=Tm, p=p), 'UnitDualQuaternion(SE3).SE3() * point')
+        if ok:
+            L.close('UDQ(T).SE3()*p', r[0], Tm[:3, :3] @ p + Tm[:3, 3], 1e-7, max(float(np.max(np.abs(p))), geom.tmag(Tm), 1.0), dict(T=Tm, p=p), what='a pose converted to a unit dual quaternion and back moves a point differently', sig='UDQ.SE3()*p'); L.close('homtrans(UDQ(T).SE3())', r[1], Tm[:3, :3] @ p + Tm[:3, 3], 1e-7, max(float(np.max(np.abs(p))), geom.tmag(Tm), 1.0), dict(T=Tm, p=p), sig='UDQ.SE3()*p')
         ok, r = L.noraise('UDQ(T)*p', lambda: UnitDualQuaternion(SE3(Tm, check=False)) * p, dict(T=Tm, p=p, theta=th), 'UnitDualQuaternion(SE3) * point')
         if ok and r is not None: L.close('UDQ(T)*p', np.asarray(r, float).flatten(), R @ p + t, ctol, scale, dict(T=Tm, p=p), what='UnitDualQuaternion converted from an SE3 does not act like the SE3')
         # multi-valued unit quaternion times one vector: column k is value k applied to the vector (any number of values)
